@@ -225,7 +225,8 @@ fn parse_8_unary(tokens: &[HctlToken]) -> Result<HctlTreeNode, String> {
     let unary_token = index_of_first_unary(tokens);
     Ok(if let Some(i) = unary_token {
         // perform check that unary operator is not directly preceded by some atomic sub-formula
-        if i > 0 && matches!(&tokens[i - 1], HctlToken::Atom(..)) {
+        // or a parenthesised group (at this level, nothing else can precede it)
+        if i > 0 {
             return Err(format!(
                 "Unary operator can't be directly preceded by {}.",
                 &tokens[i - 1]
